@@ -18,6 +18,9 @@
 (*   rel     the result satisfies its type's defining relation for the     *)
 (*           port states of the input (relcheck.c); 2 = not decidable      *)
 (*   chain   same, against the matrix the episode started from            *)
+(*   zu/zun  the reference impedances the harness handed to the direct     *)
+(*           call (ids, nf x zun): must be the model's, so that stale      *)
+(*           impedances in the object show up as a conversion mismatch     *)
 (***************************************************************************)
 EXTENDS NetData, TraceCommon
 
@@ -168,6 +171,14 @@ TConvert ==
                              <<l, "Convert", "obs", src>>)
                   /\ Explain(conv => ev.x.direct = 1,
                              <<l, "Convert", "matchesDirectCall", 1>>)
+                  (* ... and the reference impedances handed to that direct *)
+                  (* call (zu: nf rows of zun ids, flattened) are the ones  *)
+                  (* the model holds for the source, frequency by frequency *)
+                  /\ Explain((conv /\ ev.x.zun > 0) =>
+                               \A f \in 1..src.nf, p \in 1..ev.x.zun :
+                                  ev.x.zu[(f - 1) * ev.x.zun + p] = EffZ0(src, f, p),
+                             <<l, "Convert", "directCallImpedances",
+                               [f \in 1..src.nf |-> EffRow(src, f)]>>)
                   /\ Explain(inplace => ev.x.eqOut = 1,
                              <<l, "Convert", "inPlaceEqualsOutOfPlace", 1>>)
                   /\ Explain(ev.x.rel # 0, <<l, "Convert", "relationHolds", 1>>)
